@@ -345,6 +345,9 @@ class Diagram(cat.Arrow):
                     raise TypeError(messages.type_err(Diagram, box))
                 if not isinstance(off, int):
                     raise TypeError(messages.type_err(int, off))
+                if not 0 <= off <= len(layers.cod if layers else dom):
+                    raise cat.AxiomError(
+                        "Offset {} out of range.".format(off))
                 left = layers.cod[:off] if layers else dom[:off]
                 right = layers.cod[off + len(box.dom):]\
                     if layers else dom[off + len(box.dom):]
